@@ -425,12 +425,15 @@ func retLenSummary(p *Prog, cal *ssa.Function, idx int, call *ssa.Call, caller *
 	}
 	var out []*Lin
 	for _, b := range cal.Blocks {
+		if b == cal.Recover {
+			continue
+		}
 		for _, in := range b.Instrs {
 			ret, ok := in.(*ssa.Return)
-			if !ok || idx >= len(ret.Results) {
+			if !ok || idx >= len(retVals(ret)) {
 				continue
 			}
-			ls, ok := ce.Len(ret.Results[idx])
+			ls, ok := ce.Len(retVals(ret)[idx])
 			if !ok {
 				return nil, false
 			}
